@@ -232,7 +232,14 @@ func c17RunFile(c c17Case, files [][]rdbgen.Item) (kind, what string) {
 // c17Sched drives decoderMain workers on channels the harness owns: every order of feeding
 // entries and draining results, with the workers run to quiescence in between.
 func c17Sched(t *testing.T, c c17Case, files [][]rdbgen.Item, ch *seqx.Chooser) (kind, what string, trace []string) {
-	file, recs := rdbgen.File(9, files[c.File][:6])
+	var items []rdbgen.Item
+	if c.File == -1 {
+		// one key whose decoded text exceeds the 8 MB writer buffer, followed by a small key
+		items = c17BigItems()
+	} else {
+		items = files[c.File][:6]
+	}
+	file, recs := rdbgen.File(9, items)
 	var entries []*rdb.BinEntry
 	l := rdb.NewLoader(bytes.NewReader(file))
 	l.Header()
@@ -417,6 +424,38 @@ func TestVerif_C17(t *testing.T) {
 			ev.Count("feed_drain_orders", int64(cnt))
 		}
 	}
+	// a key whose text is larger than the 8 MB output buffer, decoded next to small keys by 2 and 3
+	// workers: feed/drain orders with at most 1 (thorough: 2) deviations from "feed first"
+	for par := 2; par <= 3; par++ {
+		idx++
+		if !ev.Mine(idx) {
+			continue
+		}
+		c := c17Case{Sub: "sched", File: -1, Parallel: par}
+		d := 1
+		if ev.Thorough() {
+			d = 2
+		}
+		cnt, complete := seqx.Explore(seqx.Options{MaxDev: d, Stop: ev.OverBudget}, func(ch *seqx.Chooser) {
+			k, w, tr := c17Sched(t, c, files, ch)
+			trans += int64(len(tr))
+			if k != "" {
+				cc := c
+				cc.Trail = append([]int{}, ch.Trail...)
+				if len(w) > 600 {
+					w = w[:600] + "..."
+				}
+				ev.Violate("C17|sched-"+k+"|big-key", fmt.Sprintf("%s (one key of more than 8 MB of text, workers=%d, feed/drain order %v)", w, par, tr), cc)
+			}
+			ev.State(ev.HashS(fmt.Sprint("big", par, tr)))
+			ev.Nontrivial(ev.HashS(fmt.Sprint("big", par, tr)))
+		})
+		n += int64(cnt)
+		if !complete {
+			ev.Cap("time budget in big-key feed/drain orders")
+		}
+		ev.Count("big_key_feed_drain_orders", int64(cnt))
+	}
 	// infinite scores
 	idx++
 	if ev.Mine(idx) {
@@ -429,6 +468,23 @@ func TestVerif_C17(t *testing.T) {
 	ev.Eval(n)
 	ev.Trace(n)
 	ev.Trans(trans + n)
+}
+
+var c17Big []rdbgen.Item
+
+func c17BigItems() []rdbgen.Item {
+	if c17Big == nil {
+		raw := func(x string) rdbgen.Str { return rdbgen.RawStr([]byte(x), rdbgen.LCanon) }
+		members := make([]rdbgen.Str, 0, 80000)
+		for i := 0; i < 80000; i++ {
+			members = append(members, raw(fmt.Sprintf("member-%017d", i)))
+		}
+		c17Big = []rdbgen.Item{rdbgen.SelectDB(0, rdbgen.LCanon),
+			rdbgen.Key(raw("bigset"), rdbgen.SetVal(members, rdbgen.LCanon), rdbgen.KeyOpts{}),
+			rdbgen.Key(raw("small"), rdbgen.StringVal(raw("v")), rdbgen.KeyOpts{}),
+			rdbgen.Key(raw("small2"), rdbgen.StringVal(raw("w")), rdbgen.KeyOpts{})}
+	}
+	return c17Big
 }
 
 // c17Inf: a sorted set with infinite scores must be printed like any other.
